@@ -12,7 +12,7 @@ def one(meta_path):
     S = tempfile.mkdtemp(prefix="jreg.", dir="/tmp")
     try:
         subprocess.run(["rsync", "-a", "--exclude", ".git", "--exclude", "__pycache__", "--exclude", "logs", "/repo/", S + "/"], check=True)
-        p = subprocess.run(["patch", "-p1", "-s", "--fuzz=3", "-i", os.path.join(os.path.dirname(meta_path), "patch.diff")], cwd=S, capture_output=True, text=True)
+        p = subprocess.run(["git", "apply", "--whitespace=nowarn", os.path.join(os.path.dirname(meta_path), "patch.diff")], cwd=S, capture_output=True, text=True)
         if p.returncode != 0:
             return sid, "PATCH-DOES-NOT-APPLY", []
         res = []
